@@ -293,12 +293,15 @@ def _gen_base_plain(rng):
 
 def gen_case(rng, tier):
     stratum = None
-    if rng.random() < 0.25:
+    if rng.random() < 0.12:
+        stratum = "inplace-history"
+        base = _gen_hist(rng, tier)
+    elif rng.random() < 0.25:
         stratum = CORNERS[rng.randrange(len(CORNERS))]
         base = _gen_corner(rng, stratum)
     else:
         base = _gen_base(rng, tier)
-    if stratum is None and base["kind"] not in ("raw", "point") and rng.random() < 0.3:
+    if stratum is None and base["kind"] not in ("raw", "point", "hist") and rng.random() < 0.3:
         base = {"kind": "sub", "base": base, "frac": rng.choice([0.0, 0.15, 0.3, 0.5, 0.5, 0.8, 1.0]), "seed": rng.randint(0, 10 ** 6),
                 "one": rng.random() < 0.15}
     qs = []
@@ -377,6 +380,8 @@ def _build(rec):
 
 
 def _grid(case):
+    if case["grid"]["kind"] == "hist":
+        return _hist(case)["g"]  # the object after the last in-place mutation
     key = json.dumps(case["grid"], sort_keys=True)
     if key not in _CACHE:
         if len(_CACHE) > 4000:
@@ -390,6 +395,8 @@ def _grid(case):
 
 def _is_fresh(rec):
     """tags come straight from the Grid constructor (no fracture meshing in between)"""
+    if rec["kind"] == "live":
+        return bool(rec["fresh"])
     return rec["kind"] in ("cart", "tensor", "tri", "tet", "point", "raw", "sub")
 
 
@@ -474,6 +481,116 @@ def _wf_numpy(g):
         if len(set(cells)) < len(cells) or len(set(signs)) < len(signs):
             ok = False
     return ok, all(f in per_face for f in range(g.num_faces))
+
+
+# ----------------------------------------------------------------------------- histories: ONE grid object, queried, mutated in place, queried again
+_HIST = {}
+
+
+def _plane_faces(g, st):
+    """faces of a Cartesian grid on the plane x_axis = k whose centre lies strictly inside (lo, hi) along axis `o`"""
+    fc = g.face_centers
+    return np.where(np.isclose(fc[st["axis"]], st["k"]) & (fc[st["o"]] > st["lo"]) & (fc[st["o"]] < st["hi"]))[0]
+
+
+def _mutate(g, st):
+    """in-place topology change of the SAME object, by the real splitting routines or by plain reassignment (as fracture propagation does)"""
+    from porepy.fracs import split_grid
+    if st["op"] in ("split_faces", "split_specific"):
+        faces = _plane_faces(g, st)
+        if faces.size == 0:
+            return
+        if st["op"] == "split_faces":
+            fcells = sps.csc_matrix((np.ones(faces.size), (np.arange(faces.size), faces)), shape=(faces.size, g.num_faces))
+            split_grid.split_faces(g, [fcells])
+        else:
+            split_grid.split_specific_faces(g, [sps.csc_matrix((faces.size, g.num_faces))], faces, np.arange(faces.size), 0)
+        g.cell_faces.eliminate_zeros()  # as split_fractures / propagate_fracture do after splitting
+        return
+    # plain reassignment: move the negative-side entry of one untagged internal face to a new face
+    cf = g.cell_faces.tocoo()
+    nf, nc = g.num_faces, g.num_cells
+    cnt = np.bincount(cf.row, minlength=nf)
+    tagged = np.asarray(g.tags["fracture_faces"]) | np.asarray(g.tags["tip_faces"]) | np.asarray(g.tags["domain_boundary_faces"])
+    cand = [int(f) for f in np.where((cnt == 2) & ~tagged)[0]]
+    if not cand:
+        return
+    f = random.Random(st["seed"]).choice(cand)
+    rows = cf.row.copy()
+    rows[(cf.row == f) & (cf.data < 0)] = nf
+    fn = g.face_nodes.tocsc()
+    g.cell_faces = sps.csc_matrix((cf.data.copy(), (rows, cf.col.copy())), shape=(nf + 1, nc))
+    g.face_nodes = sps.hstack([fn, fn[:, [f]]]).tocsc()
+    g.num_faces = nf + 1
+    for name in ("face_centers", "face_normals"):
+        if hasattr(g, name):
+            setattr(g, name, np.hstack((getattr(g, name), getattr(g, name)[:, [f]])))
+    if hasattr(g, "face_areas"):
+        g.face_areas = np.append(g.face_areas, g.face_areas[f])
+    for k in FACE_TAGS:
+        g.tags[k] = np.append(g.tags[k], False)
+    g.tags["fracture_faces"][[f, nf]] = True
+    g.update_boundary_node_tag()
+
+
+def _hist(case):
+    key = json.dumps(case, sort_keys=True)
+    if key in _HIST:
+        return _HIST[key]
+    if len(_HIST) > 500:
+        _HIST.clear()
+    rec = case["grid"]
+    with warnings.catch_warnings():
+        warnings.simplefilter("ignore")
+        g = _build(rec["base"])
+        g.compute_geometry()
+        stages = []
+        for i in range(len(rec["steps"]) + 1):
+            if i:
+                _mutate(g, rec["steps"][i - 1])
+            live = {"kind": "live", "stage": i, "fresh": i == 0, "after": rec["steps"][i - 1]["op"] if i else "construction", "of": hash(key)}
+            sc = dict(case, grid=live)
+            lk = json.dumps(live, sort_keys=True)
+            _CACHE[lk] = g  # the SAME object at every stage; answers are taken now, before the next mutation
+            try:
+                impl = impl_run(sc)
+            except Exception as e:
+                import traceback
+                impl = {"harness_exc": f"{type(e).__name__}: {e}", "tb": traceback.format_exc()[-1500:]}
+            orc = oracle(sc)
+            try:
+                ops = model_ops(sc)
+            except Exception:
+                ops = None
+            stages.append({"case": sc, "impl": impl, "oracle": orc, "ops": ops, "info": _info(g)})
+            del _CACHE[lk]
+    _HIST[key] = {"g": g, "stages": stages}
+    return _HIST[key]
+
+
+def _gen_hist(rng, tier):
+    d = rng.choice([2, 2, 2, 3])
+    n = [rng.randint(2, 4) for _ in range(2)] if d == 2 else [rng.randint(2, 3) for _ in range(3)]
+    steps = []
+    used = []
+    for _ in range(2):  # two successive in-place mutations
+        op = rng.choice(["split_faces", "split_faces", "split_specific", "reassign"])
+        if op == "reassign":
+            steps.append({"op": op, "seed": rng.randint(0, 10 ** 6)})
+            continue
+        for _ in range(20):
+            ax = rng.randrange(d)
+            k = rng.randint(1, n[ax] - 1)
+            if (ax, k) not in used:
+                break
+        used.append((ax, k))
+        o = rng.choice([a for a in range(d) if a != ax])
+        lo = rng.randint(0, n[o] - 1)
+        hi = rng.randint(lo + 1, n[o])
+        if rng.random() < 0.3:
+            lo, hi = 0, n[o]
+        steps.append({"op": op, "axis": ax, "k": k, "o": o, "lo": lo, "hi": hi})
+    return {"kind": "hist", "base": {"kind": "cart", "n": n, "perturb": None}, "steps": steps}
 
 
 def _topo_fields(g):
@@ -635,6 +752,8 @@ def _impl_extract(case, g):
 
 
 def impl_run(case):
+    if case["grid"]["kind"] == "hist":
+        return {"stages": [st["impl"] for st in _hist(case)["stages"]]}
     g = _grid(case)
     out = {}
     out["wf"], out["noorphan"] = _wf_numpy(g)
@@ -695,6 +814,8 @@ def impl_run(case):
 
 # ----------------------------------------------------------------------------- model side
 def model_ops(case):
+    if case["grid"]["kind"] == "hist":
+        return [op for st in _hist(case)["stages"] for op in (st["ops"] or [])]
     g = _grid(case)
     topo = _topo_fields(g)
     ops = [dict(topo, op="grid",
@@ -717,22 +838,37 @@ def _tags_dict(j):
     return None if j is None else {kv["k"]: kv["v"] for kv in j}
 
 
+def _info(g):
+    return {"nf": int(g.num_faces), "nc": int(g.num_cells), "fnrows": int(g.face_nodes.shape[0]), "overlap": _tags_overlap(g)}
+
+
 def model_decode(outs, case):
+    if case["grid"]["kind"] == "hist":
+        h = _hist(case)
+        res, k = [], 0
+        for st in h["stages"]:
+            n = len(st["ops"]) if st["ops"] is not None else 0
+            res.append(_decode_one(outs[k:k + n], st["case"], st["info"]) if n else {"err": "model_ops failed at stage time"})
+            k += n
+        return {"stages": res}
+    return _decode_one(outs, case, _info(_grid(case)))
+
+
+def _decode_one(outs, case, info):
     m = outs[0]
     if "err" in m:
         return m
-    g = _grid(case)
-    nf, nc = int(g.num_faces), int(g.num_cells)
+    nf, nc = info["nf"], info["nc"]
     out = dict(m)
     out["dense_shape"] = [2, nf]
     out["conn"] = [list(p) for p in sorted({tuple(p) for p in m["conn"]})]
     out["conn_shape"] = [nc, nc]
     out["allbnd"] = m["bnd"]
-    if _tags_overlap(g):
+    if info["overlap"]:
         out["dom"] = "overlapping-tags"
     out["bnd_size"] = nf
     out["cn"] = [sorted(set(c)) for c in m["cn"]]
-    out["cn_shape"] = [int(g.face_nodes.shape[0]), nc]
+    out["cn_shape"] = [info["fnrows"], nc]
     dv = []
     for dim, d in zip(case["div"], m["div"]):
         if isinstance(d, dict):
@@ -765,6 +901,9 @@ def model_decode(outs, case):
 def compare(impl, model, case):
     if "harness_exc" in impl:
         return "impl raised: " + impl["harness_exc"]
+    for i, st in enumerate(impl.get("stages", [])):
+        if "harness_exc" in st:
+            return f"impl raised at stage {i}: " + st["harness_exc"]
     return deep_compare(impl, model)
 
 
@@ -928,6 +1067,16 @@ def _call(g, name, *args, ok=()):
 
 
 def oracle(case):
+    if case["grid"]["kind"] == "hist":
+        # every answer must agree with the incidence as it is AT THAT STAGE of the history of the one grid object
+        for i, st in enumerate(_hist(case)["stages"]):
+            o = st["oracle"]
+            if o is not None:
+                if i == 0:
+                    return o
+                after = "+".join(s["op"] for s in case["grid"]["steps"][:i])
+                return {"what": f"after in-place mutation(s) [{after}] of the same grid object: {o['what']}", "key": f"{o['key']}@after-inplace-mutation"}
+        return None
     try:
         g = _grid(case)
     except Exception as e:
@@ -958,6 +1107,8 @@ def _oracle(case, g):
     cnt = (A != 0).sum(axis=1)
     one = cnt == 1
     kind = rec["kind"] if rec["kind"] != "sub" else "sub-" + rec["base"]["kind"]
+    if rec["kind"] == "live":
+        kind = f"same-object-stage{rec['stage']}-after-{rec['after']}"
     with warnings.catch_warnings():
         warnings.simplefilter("ignore")
         # --- vector divergence = scalar one expanded per component (no well-formedness needed)
@@ -1113,6 +1264,11 @@ def shrink_candidates(case):
         if len(case["div"]) > 1:
             yield dict(case, div=case["div"][:i] + case["div"][i + 1:])
     rec = case["grid"]
+    if rec["kind"] == "hist":
+        for i in range(len(rec["steps"])):
+            if len(rec["steps"]) > 1:
+                yield dict(case, grid=dict(rec, steps=rec["steps"][:i] + rec["steps"][i + 1:]))
+        return
     if rec["kind"] == "sub":
         yield dict(case, grid=rec["base"])
         rec = None
@@ -1177,6 +1333,16 @@ def stats(cases, impl_outs):
         cols = [r["cf_indices"][r["cf_indptr"][k]:r["cf_indptr"][k + 1]] for k in range(r["nc"])]
         corner["raw_unsorted_columns"] += any(x != sorted(x) for x in cols)
     corner = {k: int(v) for k, v in corner.items()}
-    return {"strata": strata, "corner_counts": corner, "face_list_orders": orders, "grid_kinds": kinds, "grid_dims": dims, "sizes": sizes, "grids_with_split_faces": split,
+    hist = {"cases": 0, "stages_checked": 0, "split_faces": 0, "split_specific": 0, "reassign": 0, "stages_with_new_split_faces": 0}
+    for c in cases:
+        if c["grid"]["kind"] == "hist":
+            hist["cases"] += 1
+            h = _hist(c)
+            hist["stages_checked"] += len(h["stages"])
+            for st in c["grid"]["steps"]:
+                hist[st["op"]] += 1
+            nfs = [st["info"]["nf"] for st in h["stages"]]
+            hist["stages_with_new_split_faces"] += sum(1 for a, b in zip(nfs, nfs[1:]) if b > a)
+    return {"inplace_history": hist, "strata": strata, "corner_counts": corner, "face_list_orders": orders, "grid_kinds": kinds, "grid_dims": dims, "sizes": sizes, "grids_with_split_faces": split,
             "signs_cells_queries": nq, "signs_cells_errors": nerr,
             "div_error_dims": sum(1 for c in cases for d in c["div"] if d < 1)}
